@@ -467,6 +467,7 @@ class Emitter:
         self.macros = {}
         self.inline = False
         self._helpers = None
+        self.disabled_hints = {}
 
     def helpers_now(self):
         if self._helpers is None:
@@ -726,6 +727,7 @@ class Emitter:
                 b = inline_helpers(b, self.helpers_now(), rules)
             inserts = []  # (pos, text)
             lost_hints = []
+            fid_key = '%s::%s::%s' % (rel, norm(cont) if cont != '-' else '-', name)
             if loops:
                 lp = find_loops(b)
                 for n, txt in loops.items():
@@ -750,7 +752,10 @@ class Emitter:
                     lost_hints.append(rx)
                     continue
                 ls = b.rfind('\n', 0, ms[0].start()) + 1
-                inserts.append((ls, '\n'.join(txt) + '\n'))
+                if rx in self.disabled_hints.get(fid_key, ()):
+                    lost_hints.append(rx + ' (dropped: its text no longer compiles against the reshaped body)')
+                    continue
+                inserts.append((ls, '//#hint %s\n' % rx + '\n'.join(txt) + '\n//#endhint\n'))
                 rules.append('E4-hint')
             for pos, txt in sorted(inserts, reverse=True):
                 b = b[:pos] + txt + b[pos:]
@@ -800,12 +805,13 @@ def index_lemmas(text):
     return res
 
 
-def build(repo, specs_dir, template, out_path, negate=False):
+def build(repo, specs_dir, template, out_path, negate=False, disabled_hints=None):
     src = Source(repo)
     em = Emitter(src, specs_dir)
     em.process(template, negate)          # pass 1: learns which functions the template addresses
     em2 = Emitter(src, specs_dir)
     em2.inline = True                     # pass 2: E14 inlining of simple unaddressed helpers
+    em2.disabled_hints = disabled_hints or {}
     em2.process(template, negate)
     em = em2
     text = ''.join(em.out)
